@@ -62,7 +62,7 @@ func runChild(cases []fcase) []cresult {
 	// the child's own watchdog is hangTimeout per run (per round of a scenario)
 	lineTimeout := hangTimeout + 30*time.Second
 	for _, c := range cases {
-		if c.Scenario != "" {
+		if c.Scenario == "spaced" {
 			lineTimeout = (spacedRounds+2)*hangTimeout + 30*time.Second
 		}
 	}
@@ -263,6 +263,9 @@ func firedOK(c fcase, res cresult) bool {
 	if len(res.Fired) != len(c.Faults) {
 		return false
 	}
+	if c.Scenario == "boot" && res.BootFired != len(c.Boot) {
+		return false // e.g. the 3rd machine is only started if one of the first two is lost
+	}
 	for i := range c.Faults {
 		if !res.Fired[i] {
 			return false
@@ -310,6 +313,9 @@ func pointSig(f vsys.Fault, callee string, inf *progInfo) string {
 }
 
 func signature(c fcase, res cresult, inf *progInfo, class string) string {
+	if c.Scenario == "boot" {
+		return "C02/" + c.Prog + "/" + c.Mode + "/Worker.FuncLocations" + strings.ReplaceAll(fmt.Sprint(c.Boot), " ", "+") + "/" + c.BootVariant + "/" + class
+	}
 	if c.Scenario != "" {
 		return "C02/" + c.Prog + "/" + c.Mode + "/" + c.Scenario + "-losses/" + class
 	}
@@ -344,7 +350,9 @@ func account(c fcase, res cresult, inf *progInfo, suspects *[]suspect) bool {
 		return false
 	}
 	class := classify(res, inf.expected, c.Mode)
-	if c.Scenario != "" {
+	if c.Scenario == "boot" {
+		tl.bootFired[c.Prog+"|"+fmt.Sprint(c.Boot)+"|"+c.BootVariant] = true
+	} else if c.Scenario != "" {
 		tl.scenarioRuns++
 		tl.scenarioRounds += res.Rounds
 		tl.scenarioKills += len(res.Killed)
@@ -527,7 +535,7 @@ func confirm(r *ev.Run, suspects []suspect, infos map[string]*progInfo) {
 			what += "the run did not recover although replacement machines were available and losses had stopped (" + s.class + ")"
 		}
 		r.Violate(s.sig, what, map[string]interface{}{
-			"program": s.c.Prog, "mode": s.c.Mode, "scenario": s.c.Scenario, "rounds_completed": s.res.Rounds, "faults": s.c.Faults, "callee": s.res.Callee, "killed": s.res.Killed,
+			"program": s.c.Prog, "mode": s.c.Mode, "scenario": s.c.Scenario, "machines_killed_at_first_FuncLocations": s.c.Boot, "boot_variant": s.c.BootVariant, "rounds_completed": s.res.Rounds, "faults": s.c.Faults, "callee": s.res.Callee, "killed": s.res.Killed,
 			"outcome": s.res.Out, "expected_rows": infos[s.c.Prog].expected, "history": s.res.History, "scan_start": s.res.ScanStart,
 			"crash": s.res.Crash, "rerun_outcomes": reruns[i].classes, "cut_at_batch_end": cutAtEnd, "batch_ends_in_reply": ends, "cases_with_this_signature": total[s.sig], "goroutine_dump": dump,
 		})
